@@ -105,6 +105,10 @@ def check_case(run, case):
                 cands.append(k_)
             if len(cands) > 1200:
                 break
+        # digits of other scripts in place of the ASCII digits of a derivable string (full-width forms, Arabic-Indic, Thai): other characters, other strings
+        for c in rng.sample([x for x in train_set + guess_sample if any(ch in '0123456789' for ch in x)] or ['x'], min(12, len([x for x in train_set + guess_sample if any(ch in '0123456789' for ch in x)]) or 1)):
+            base0 = rng.choice([0xff10, 0x0660, 0x0e50])
+            cands.append(''.join(chr(base0 + ord(ch) - 48) if ch in '0123456789' else ch for ch in c))
         cands = [c for c in dict.fromkeys(cands) if oracles.valid_password(c) and trainlists.encodable(c, case['encoding'])]
         sp.email_detection, sp.website_detection = email_rec, web_rec
         first = {}
